@@ -27,6 +27,11 @@ var errCiphertextTooShort = errors.New("ciphertext too short")
 type encryptor interface {
 	Encrypt(data []byte) ([]byte, error)
 	Decrypt(data []byte) ([]byte, error)
+	// EncryptFor and DecryptFor bind the ciphertext to the key it is stored
+	// under (additional authenticated data): a file copied or moved to the
+	// name of another key does not open.
+	EncryptFor(key string, data []byte) ([]byte, error)
+	DecryptFor(key string, data []byte) ([]byte, error)
 }
 
 // aesgcmEncryptor implements the encryptor interface using AES-GCM.
@@ -56,18 +61,26 @@ func newAESGCMEncryptor(r io.Reader, keyB64 string) (*aesgcmEncryptor, error) {
 }
 
 func (e *aesgcmEncryptor) Encrypt(data []byte) ([]byte, error) {
+	return e.EncryptFor("", data)
+}
+
+func (e *aesgcmEncryptor) Decrypt(data []byte) ([]byte, error) {
+	return e.DecryptFor("", data)
+}
+
+func (e *aesgcmEncryptor) EncryptFor(key string, data []byte) ([]byte, error) {
 	nonce := make([]byte, e.gcm.NonceSize())
 	if _, err := io.ReadFull(e.r, nonce); err != nil {
 		return nil, err
 	}
-	ciphertext := e.gcm.Seal(nonce, nonce, data, nil)
+	ciphertext := e.gcm.Seal(nonce, nonce, data, []byte(key))
 	return ciphertext, nil
 }
 
-func (e *aesgcmEncryptor) Decrypt(data []byte) ([]byte, error) {
+func (e *aesgcmEncryptor) DecryptFor(key string, data []byte) ([]byte, error) {
 	if len(data) < e.gcm.NonceSize() {
 		return nil, errCiphertextTooShort
 	}
 	nonce, ciphertext := data[:e.gcm.NonceSize()], data[e.gcm.NonceSize():]
-	return e.gcm.Open(ciphertext[:0], nonce, ciphertext, nil)
+	return e.gcm.Open(ciphertext[:0], nonce, ciphertext, []byte(key))
 }
